@@ -281,6 +281,10 @@ class Gen:
                 if ps["marker"] and r.random() < p["callraise"]:
                     ps["callraise"] = sorted({r.randrange(6) for _ in range(2)})
         steps = []
+        for ps in pools:
+            # some pools get their size by assignment right after construction (in particular pools created without one)
+            if r.random() < p.get("init_size", 0.2):
+                steps.append({"op": "init_size", "pool": ps["idx"], "v": r.choice([0, 1, 2, 2, 3, 5, None]), "was_none": ps["size"] is None})
         n = r.randint(*p["steps"]) if not self.long else r.randint(60, 160)
         for _ in range(n):
             pool = r.choice(pools)
